@@ -259,6 +259,8 @@ package config
 // A group stanza: exactly one of name / names; one Interface per name, in order.
 //@ macro ifaceResultOK(x, nm, raw) = x.Name == nm && headerCfgOK(x) && pluginsCfgOK(x.Plugins) && (raw.Monitor ==> x.Monitor && !x.Advertise) && (!raw.Monitor ==> x.Advertise == raw.Advertise && !x.Monitor && validIntervals(x.MinInterval, x.MaxInterval))
 
+//@ macro stanzaAccept(raw) = !(raw.Monitor && raw.Advertise) && (raw.Monitor || (headerAccept(raw) && pluginsAccept(raw, maxOf(raw))))
+//@ macro groupAccept(raw) = ((raw.Name != "") != (len(raw.Names) > 0)) && stanzaAccept(raw)
 //@ func parseInterfaces
 //@   requires G1: sentinelsOK() && epochOK(epoch)
 //@   assigns new heap(config.Interface), new mem(config.Interface), new mem(string), new heap(plugin.Prefix), new heap(plugin.Route), new heap(plugin.RDNSS), new heap(plugin.DNSSL), new heap(plugin.MTU), new heap(plugin.LLA), new heap(plugin.CaptivePortal), new heap(plugin.PREF64), new heap(ndp.PREF64), new heap(ndp.CaptivePortal), new mem(*plugin.Prefix), new mem(*plugin.Route), new mem(plugin.Plugin), new mem(netip.Addr), new key(MD_Addr_S_empty), new key(MV_Addr_S_empty), new key(MD_Int_S_empty), new key(MV_Int_S_empty)
@@ -270,6 +272,8 @@ package config
 //@   ensures E2 [C02]: (ifi.Name != "") == (len(ifi.Names) > 0) ==> result1 != nil
 //@   ensures E3 [C02,C03,C05,C01]: result1 == nil ==> len(result0) == ite(ifi.Name != "", 1, len(ifi.Names)) && forall(k, 0, len(result0), ifaceResultOK(result0[k], ite(ifi.Name != "", ifi.Name, ifi.Names[k]), ifi))
 //@   ensures E4 [C02]: result1 != nil ==> result0 == nil
+//@   loop 1 invariant L5 [C02]: rangeindex + 1 > 0 ==> stanzaAccept(ifi)
+//@   ensures E7 [C02]: (result1 == nil) == groupAccept(ifi)
 //@   ensures E5 [C01]: result1 == nil ==> forall(a, 0, len(result0), forall(b, a + 1, len(result0), sepPlugins(result0[a].Plugins, result0[b].Plugins)))
 //@   ensures E6 [C01]: result1 == nil ==> forall(k, 0, len(result0), freshPlugins(result0[k].Plugins))
 //@   opt safety [C02]
